@@ -106,7 +106,7 @@ package vm
 // collection (the clone, when the operand is a struct), and it is counted exactly when the
 // collection itself is referenced.
 //@ case APPEND
-//@ requires op == opcode.APPEND && v.getPrice == nil
+//@ requires op == opcode.APPEND && v.getPrice == nil && v.estack != nil
 //@ call (*refCounter).Add requires[stored] arg1 == val
 //@ call (*Array).Append requires[stored] arg1 == val
 //@ call (*Struct).Append requires[stored] arg1 == val
